@@ -71,6 +71,7 @@ pub struct Probes {
     pub quiescent_try_ok: u64,
     pub destroys: u64,
     pub roundtrip_values: u64,
+    pub relisted_through_child_mut: u64,
 }
 
 pub struct Runner<'a> {
@@ -112,6 +113,8 @@ struct St<'r, 'a> {
     private_poison: BTreeMap<PoisonId, PState>,
     /// the current step runs inside a destructor during an unrelated unwind
     in_unwind: bool,
+    /// an injected user panic was thrown in the current step
+    panic_thrown: bool,
 }
 
 struct ClosureScope<'s>(&'s Sched);
@@ -407,6 +410,7 @@ impl<'r, 'a> St<'r, 'a> {
 
     fn note_user_panic(&mut self, ctx: &Ctx) {
         self.probe(|p| p.user_panics += 1);
+        self.panic_thrown = true;
         let spec = &self.r.world.spec;
         let ids: Vec<PoisonId> = spec.poison_ids(&spec.targets[ctx.acq.target], if ctx.private { None } else { Some(ctx.acq.target) });
         let excl = !ctx.shared;
@@ -541,8 +545,10 @@ impl<'r, 'a> St<'r, 'a> {
                     let e = m.poison.entry(pid).or_default();
                     e.must = false;
                     e.must_direct = false;
-                    // a concurrent unwind may still set the flag after this clear: uncertain
-                    e.may = flying;
+                    // a concurrent unwind may still set the flag after this clear: uncertain; so is a
+                    // clear from inside a destructor during an unwind (whatever guard is still alive
+                    // there is dropped while thread::panicking())
+                    e.may = flying || self.in_unwind;
                 }
             }
         }
@@ -1000,7 +1006,16 @@ impl<'r, 'a> Th<'r, 'a> {
         let private_flat;
         let (node, flat): (&Node, &[FlatLeaf]) = if acq.rebuild {
             match world.build(spec_t, s) {
-                Ok(n) => {
+                Ok(mut n) => {
+                    if acq.mutate {
+                        if let (Node::Retry(c), Some(first)) = (&mut n, world.spec.flatten(spec_t, None).first()) {
+                            if let Some(leaf) = world.leaf(first.lid) {
+                                if relist_through_child_mut(c, Node::Leaf(leaf)) {
+                                    self.st.probe(|p| p.relisted_through_child_mut += 1);
+                                }
+                            }
+                        }
+                    }
                     private_node = n;
                     private_flat = world.spec.flatten(spec_t, None);
                     (&private_node, &private_flat[..])
@@ -1097,6 +1112,9 @@ impl<'r, 'a> Th<'r, 'a> {
                 self.kh.alive = false;
             }
         }
+        if payload.is::<sched::AbortEscape>() {
+            return;
+        }
         let held = s.held();
         if payload.is::<Injected>() {
             if !held.is_empty() {
@@ -1188,8 +1206,94 @@ impl<'r, 'a> Th<'r, 'a> {
         self.fault_probes();
     }
 
+    fn rekey_after_probe(&mut self, lid: Lid) {
+        let s = self.st.s();
+        self.kh.key = None;
+        self.kh.alive = false;
+        if let Some(k) = ThreadKey::get() {
+            self.kh.key = Some(k);
+            self.kh.alive = true;
+        }
+        let mut g = s.lock();
+        if g.locks[lid].excl == Some(self.st.tid) {
+            g.locks[lid].excl = None;
+        }
+        let me = self.st.tid;
+        g.locks[lid].shared.retain(|&t| t != me);
+    }
+
+    /// owned units give no access to their members: probe the unit as a whole. A unit with a
+    /// faulted member must refuse; a unit whose members are all healthy must not have been killed.
+    fn unit_probes(&mut self) {
+        let s = self.st.s();
+        let world = self.st.r.world;
+        for (u, us) in world.spec.units.iter().enumerate() {
+            if us.by_ref || us.leaves.is_empty() {
+                continue;
+            }
+            let unit = match world.unit(u) {
+                Some(x) => x,
+                None => continue,
+            };
+            let (any_faulted, all_free, any_evil) = {
+                let g = s.lock();
+                (
+                    us.leaves.iter().any(|l| g.locks[*l].faulted),
+                    us.leaves.iter().all(|l| g.locks[*l].excl.is_none() && g.locks[*l].shared.is_empty()),
+                    us.leaves.iter().any(|l| g.locks[*l].evil.iter().any(|e| *e)),
+                )
+            };
+            if any_evil || (!any_faulted && !all_free) {
+                continue;
+            }
+            let key = match self.take_key() {
+                Some(k) => k,
+                None => return,
+            };
+            self.st.probe(|p| p.fault_probes += 1);
+            if std::thread::panicking() {
+                let mut m = self.st.r.model.lock().unwrap();
+                for l in &us.leaves {
+                    for d in 0..world.spec.leaves[*l].layers() {
+                        m.poison.entry(PoisonId::Leaf(*l, d)).or_default().may = true;
+                    }
+                }
+            }
+            s.api_begin(ApiKind::Probe, false);
+            let r = catch_unwind(AssertUnwindSafe(|| match TargetApi::try_lock(unit, key) {
+                Ok(g) => Ok(<Unit as TargetApi>::unlock(g)),
+                Err(k) => Err(k),
+            }));
+            let recs = s.api_unwind_to(0);
+            let raw_ops: u32 = recs.iter().map(|r| r.raw_ops).sum();
+            match r {
+                Ok(Ok(k)) => {
+                    self.kh.key = Some(k);
+                    if any_faulted {
+                        s.report(Clause::FaultedUsable, format!("owned unit {} has a member whose raw operation panicked, yet a later try-acquisition of the unit succeeded", u));
+                    }
+                }
+                Ok(Err(k)) => {
+                    self.kh.key = Some(k);
+                    if !any_faulted && raw_ops == 0 {
+                        s.report(Clause::RawCollateralKill, format!("no member of owned unit {} ever had a raw operation panic, yet a later try-acquisition was refused without even trying a raw lock (a member has been killed)", u));
+                    }
+                }
+                Err(_) => {
+                    self.kh.key = None;
+                    self.kh.alive = false;
+                    if let Some(k) = ThreadKey::get() {
+                        self.kh.key = Some(k);
+                        self.kh.alive = true;
+                    }
+                }
+            }
+        }
+    }
+
     /// later acquisitions: a lock whose operation panicked refuses; a healthy free lock works
     fn fault_probes(&mut self) {
+        self.unit_probes();
         let s = self.st.s();
         let world = self.st.r.world;
         let nl = world.spec.leaves.len();
@@ -1218,7 +1322,7 @@ impl<'r, 'a> Th<'r, 'a> {
                     m.poison.entry(PoisonId::Leaf(lid, d)).or_default().may = true;
                 }
             }
-            s.api_begin(ApiKind::NonAcq, false);
+            s.api_begin(ApiKind::Probe, false);
             let r = catch_unwind(AssertUnwindSafe(|| probe_try(leaf, key)));
             let probe_rec = s.api_end();
             match r {
@@ -1251,6 +1355,34 @@ impl<'r, 'a> Th<'r, 'a> {
                     }
                 }
             }
+            if faulted && world.spec.leaves[lid].is_rw() {
+                // the shared flavours must refuse a killed lock as well
+                if let Some(key) = self.take_key() {
+                    s.api_begin(ApiKind::Probe, false);
+                    let r = catch_unwind(AssertUnwindSafe(|| probe_try_read(leaf, key)));
+                    s.api_unwind_to(0);
+                    match r {
+                        Ok(Ok(k)) => {
+                            self.kh.key = Some(k);
+                            s.report(Clause::FaultedUsable, format!("lock {} had a raw operation panic, yet a later try_read succeeded", lid));
+                        }
+                        Ok(Err(k)) => self.kh.key = Some(k),
+                        Err(_) => self.rekey_after_probe(lid),
+                    }
+                }
+                if let Some(key) = self.take_key() {
+                    s.api_begin(ApiKind::Probe, false);
+                    let r = catch_unwind(AssertUnwindSafe(|| probe_read(leaf, key)));
+                    s.api_unwind_to(0);
+                    match r {
+                        Ok(k) => {
+                            self.kh.key = Some(k);
+                            s.report(Clause::FaultedUsable, format!("lock {} had a raw operation panic, yet a later blocking read succeeded", lid));
+                        }
+                        Err(_) => self.rekey_after_probe(lid),
+                    }
+                }
+            }
             if faulted {
                 // blocking acquisition must panic (and must not reach the raw lock)
                 let key = match self.take_key() {
@@ -1258,7 +1390,7 @@ impl<'r, 'a> Th<'r, 'a> {
                     None => return,
                 };
                 let before = s.lock().stats.raw_ops;
-                s.api_begin(ApiKind::NonAcq, false);
+                s.api_begin(ApiKind::Probe, false);
                 let r = catch_unwind(AssertUnwindSafe(|| probe_lock(leaf, key)));
                 s.api_unwind_to(0);
                 let after = s.lock().stats.raw_ops;
@@ -1297,9 +1429,12 @@ impl<'r, 'a> Th<'r, 'a> {
                 let spec = &self.st.r.world.spec;
                 let ids = spec.poison_ids(&spec.targets[a.target], if a.rebuild { None } else { Some(a.target) });
                 let mut m = self.st.r.model.lock().unwrap();
-                for p in ids {
-                    m.poison.entry(p).or_default().may = true;
+                for p in &ids {
+                    m.poison.entry(p.clone()).or_default().may = true;
                 }
+                // for other threads this is an unwind in flight over those Poisonables
+                let tid = self.st.tid;
+                m.in_flight[tid] = ids;
             }
             struct RunOnDrop<'x, 'r, 'a>(*mut Th<'r, 'a>, usize, &'x Step);
             impl Drop for RunOnDrop<'_, '_, '_> {
@@ -1315,15 +1450,26 @@ impl<'r, 'a> Th<'r, 'a> {
                 resume_unwind(Box::new(Injected));
             }));
             self.st.in_unwind = false;
+            let tid = self.st.tid;
+            self.st.r.model.lock().unwrap().in_flight[tid].clear();
             return;
         }
         let depth = s.api_depth();
         let faults0 = s.faults_fired_by_me();
+        self.st.panic_thrown = false;
         let r = catch_unwind(AssertUnwindSafe(|| self.exec(step)));
         match r {
             Err(p) => {
                 let recs = s.api_unwind_to(depth);
+                if self.st.panic_thrown && !p.is::<Injected>() && !p.is::<RawFault>() && !p.is::<sched::AbortEscape>() && !self.st.raw_faults() {
+                    s.report(Clause::PayloadLost, format!("user code panicked in step {} but what reached the caller is a different panic: {:?}", i, panic_message(&*p)));
+                }
                 self.after_unwind(step, p, recs);
+            }
+            Ok(()) if self.st.panic_thrown => {
+                s.set_user_unwinding(false);
+                s.report(Clause::PayloadLost, format!("user code panicked in step {} but the panic did not propagate: the call returned normally", i));
+                self.st.r.model.lock().unwrap().in_flight[self.st.tid].clear();
             }
             Ok(()) => {
                 if s.faults_fired_by_me() != faults0 {
@@ -1488,6 +1634,35 @@ fn probe_try(leaf: &Leaf, key: ThreadKey) -> Result<ThreadKey, ThreadKey> {
     }
 }
 
+fn probe_try_read(leaf: &Leaf, key: ThreadKey) -> Result<ThreadKey, ThreadKey> {
+    fn go<T: TargetApi>(t: &T, key: ThreadKey) -> Result<ThreadKey, ThreadKey> {
+        match t.try_read(key) {
+            Ok(g) => Ok(T::unlock_read(g)),
+            Err(k) => Err(k),
+        }
+    }
+    match leaf {
+        Leaf::R(x) => go(x, key),
+        Leaf::PR(x) => go(x, key),
+        Leaf::PPR(x) => go(x, key),
+        Leaf::ZR(x) => go(&x.1, key),
+        _ => Err(key),
+    }
+}
+
+fn probe_read(leaf: &Leaf, key: ThreadKey) -> ThreadKey {
+    fn go<T: TargetApi>(t: &T, key: ThreadKey) -> ThreadKey {
+        T::unlock_read(t.read(key))
+    }
+    match leaf {
+        Leaf::R(x) => go(x, key),
+        Leaf::PR(x) => go(x, key),
+        Leaf::PPR(x) => go(x, key),
+        Leaf::ZR(x) => go(&x.1, key),
+        _ => key,
+    }
+}
+
 fn probe_lock(leaf: &Leaf, key: ThreadKey) -> ThreadKey {
     fn go<T: TargetApi>(t: &T, key: ThreadKey) -> ThreadKey {
         T::unlock(t.lock(key))
@@ -1595,7 +1770,7 @@ pub fn run_scenario(scn: &Scenario) -> RunResult {
                     r.sched.thread_start(tid);
                     let res = catch_unwind(AssertUnwindSafe(|| {
                         let mut th = Th {
-                            st: St { r, tid, step: 0, opseq: 0, snap: Vec::new(), private_poison: BTreeMap::new(), in_unwind: false },
+                            st: St { r, tid, step: 0, opseq: 0, snap: Vec::new(), private_poison: BTreeMap::new(), in_unwind: false, panic_thrown: false },
                             kh: KeyHolder { key: None, alive: false, leaked: false, extra: Vec::new() },
                             cell: KeyProbeCell { extra: RefCell::new(Vec::new()) },
                         };
